@@ -392,3 +392,52 @@ Proof. exact ansiterm_concrete_means_abstract. Qed.
 Theorem c16_rendered_ansiterm_converted : forall s, ad_src_ok s -> atm_src_ok s ->
   exists bs, (g_atc_render_converted s = Some bs) /\ (ad_interp_x bs = Some (ad_project AdAnsiTerm s)).
 Proof. exact rendered_ansiterm_converted. Qed.
+(* ---- owo-colors 4.0.0 RENDERS the converted value as the meaning tables say (DESIGN.md section 12) -------------
+   The rendering path of the third-party crate (Style::fmt_prefix / fmt_suffix, <Styled<&str> as Display>::fmt, the
+   DynColors / AnsiColors / XtermColors / Rgb fmt_raw_ansi_fg / _bg, StyleFlags, the builder methods the adapter calls) is
+   TRANSLATED from the cargo registry source of the version Cargo.lock pins (tools/gen_fn_owo.py -> Generated/OwoFn.v; the
+   crate's macro_rules tables are expanded by tools/rs2v/mexpand.py).  [g_owo_render v text] = format!("{}", v.style(text));
+   [owo_render] (Model/Owo.v) is the hand model; [owo_value s] the owo_colors::Style the adapter builds for s;
+   [owo_src_ok s] = ad_src_ok s with u8 colour components; [owo_defect s] = background, no foreground and an effect
+   owo-colors can express (finding F16-1).  [ad_interp_x] is the rendition Spec/Vt + Spec/Sgr give the "x". *)
+From AV Require Import Model.Owo Generated.OwoFn Proofs.OwoRender Proofs.OwoFnColours Proofs.OwoFnGen.
+
+(* the translated crate renders every Style without a CSS colour as the hand model says: no panic *)
+Theorem c16_rendered_owo_translated_is_model : forall v text, owo_style_ok v ->
+  g_owo_render v text = Some (owo_render v text).
+Proof. exact translated_owo_render_is_model. Qed.
+
+(* the adapter model's target style, run through the translated constructors and builder methods, is the crate's value *)
+Theorem c16_rendered_owo_translated_value : forall t, g_owo_of_tstyle t = owo_of_tstyle g_owo_ansi_names t.
+Proof. exact translated_owo_value_is_model. Qed.
+
+Theorem c16_rendered_owo_value_of_adapter : forall s, owo_src_ok s ->
+  owo_of_tstyle g_owo_ansi_names (ad_to_owo s) = Some (owo_value s).
+Proof. exact owo_value_of_adapter. Qed.
+
+(* ANY Style value (no CSS colour, u8 components) outside the separator defect: the bytes mean what its fields name *)
+Theorem c16_rendered_owo_any_value : forall v, owo_style_ok v -> owo_rgb_u8 (ow_fg v) -> owo_rgb_u8 (ow_bg v) -> owo_sep_ok v ->
+  (bytes <- g_owo_render v [120] ;; ad_interp_x bytes)
+  = Some (mkStyle (owo_slot_meaning (ow_fg v)) (owo_slot_meaning (ow_bg v)) None (owo_eff_meaning (ow_bold v) (ow_flags v))).
+Proof. exact translated_owo_render_meaning. Qed.
+
+(* render (convert s) interprets to project(s): translated adapter ; translated crate ; terminal.  TRUE outside the defect *)
+Theorem c16_rendered_owo_meaning : forall s, owo_src_ok s -> owo_defect s = false ->
+  (bytes <- g_owo_convert_render s ;; ad_interp_x bytes) = Some (ad_project AdOwo s).
+Proof. exact translated_owo_rendered_meaning. Qed.
+
+Theorem c16_rendered_owo_render_ok : forall s, owo_src_ok s -> owo_defect s = false ->
+  ad_render_ok (ad_project AdOwo s) (owo_render (owo_value s) [120]) = true.
+Proof. exact owo_render_interp_ok. Qed.
+
+(* REFUTED in the defect class (F16-1): bg red + bold renders as ESC[411m x ESC[0m, which a terminal shows unstyled *)
+Theorem c16_rendered_owo_refuted :
+  owo_src_ok owo_witness /\
+  g_owo_convert_render owo_witness = Some [27; 91; 52; 49; 49; 109; 120; 27; 91; 48; 109] /\
+  (bytes <- g_owo_convert_render owo_witness ;; ad_interp_x bytes) = Some style_default /\
+  (bytes <- g_owo_convert_render owo_witness ;; Some (ad_render_ok (ad_project AdOwo owo_witness) bytes)) = Some false.
+Proof. exact translated_owo_rendered_refuted. Qed.
+
+Theorem c16_rendered_owo_full_statement_false :
+  ~ (forall s, owo_src_ok s -> ad_render_ok (ad_project AdOwo s) (owo_render (owo_value s) [120]) = true).
+Proof. exact owo_render_full_statement_false. Qed.
